@@ -170,7 +170,12 @@ func (c *Conversation) receiveDecoded(message messageWithHeader) (plain MessageP
 	case msgTypeData:
 		return c.receiveDataMessage(messageHeader, messageBody)
 	default:
-		return c.receiveAKEMessage(msgType, messageBody)
+		plain, toSend, err = c.receiveAKEMessage(msgType, messageBody)
+		if err == nil && len(toSend) == 0 {
+			// ignored in the current state (or it completed an exchange, which had bound both already)
+			forget()
+		}
+		return
 	}
 }
 
